@@ -770,9 +770,9 @@ pub fn property() -> Property {
         subs: vec![
             Box::new(PropSub {
                 name: "C19/codes",
-                quick: 120_000,
+                quick: 360_000,
                 thorough: 3_000_000,
-                shards_quick: 4,
+                shards_quick: 16,
                 shards_thorough: 16,
                 strat: codes::strat,
                 check: codes::check,
@@ -781,9 +781,9 @@ pub fn property() -> Property {
             }),
             Box::new(PropSub {
                 name: "C19/index",
-                quick: 120_000,
+                quick: 360_000,
                 thorough: 4_000_000,
-                shards_quick: 8,
+                shards_quick: 16,
                 shards_thorough: 16,
                 strat: index::strat,
                 check: index::check,
@@ -803,9 +803,9 @@ pub fn property() -> Property {
             Box::new(ExhSub { name: "C19/index-abc-q2", enumerate: index::enumerate, check: index::check, must_reach: &["diagonal with text pos < pattern pos"] }),
             Box::new(PropSub {
                 name: "C19/sparse",
-                quick: 64_000,
+                quick: 200_000,
                 thorough: 2_000_000,
-                shards_quick: 8,
+                shards_quick: 16,
                 shards_thorough: 16,
                 strat: sparse::strat,
                 check: sparse::check,
